@@ -72,7 +72,13 @@ def _msg_payload(rng, history, big_ok):
         # incompressible
         seed = rng.getrandbits(64)
         r2 = random.Random(seed)
-        return bytes(r2.getrandbits(8) for _ in range(min(n, 3000)))
+        out = bytearray(r2.getrandbits(8) for _ in range(min(n, 3000)))
+        if len(out) >= 40 and rng.random() < 0.5:
+            # ... containing the octets of the sync-flush tail: in stored
+            # blocks they appear literally in the compressed message
+            at = rng.randrange(0, len(out) - 4)
+            out[at:at + 4] = b'\x00\x00\xff\xff'
+        return bytes(out)
     return (b'the quick brown fox %d ' % rng.randrange(10)) * (n // 20 + 1)
 
 
